@@ -1,7 +1,7 @@
 """C16 log tracepoints - see DESIGN.md section 4 (C16)."""
 import ast
 
-from .common import Ctx, Finding, Result, need, term, P, TRUSTED_LOGGING
+from .common import is_attach_call, Ctx, Finding, Result, need, term, P, TRUSTED_LOGGING
 from ..index import norm
 from .. import paths
 
@@ -243,7 +243,7 @@ def run(ctx: Ctx, tier: str) -> Result:
             and isinstance(n.targets[0], ast.Tuple) and len(n.targets[0].elts) == 2]
     if len(pvs_) == 1:
         txt_name = norm(pvs_[0].targets[0].elts[1])
-        after = [r for r in t.nodes_in(ewf_, ast.Return) if r.lineno > pvs_[0].lineno and
+        after = [r for r in t.nodes_in(ewf_, ast.Return) if r.lineno > pvs_[0].lineno and paths.dominates(p, pvs_[0], r, ewf_) and
                  not any(isinstance(a_, ast.ExceptHandler) for a_ in p.ancestors(r, stop=ewf_.node))]
         for r in after:
             third = r.value.elts[2] if isinstance(r.value, ast.Tuple) and len(r.value.elts) == 3 else None
@@ -304,7 +304,7 @@ def run(ctx: Ctx, tier: str) -> Result:
         mrg = [c for c in t.calls_in(sp) if isinstance(c.func, ast.Attribute) and c.func.attr == "merge_var_lookup" and c.args and norm(c.args[0]) == vn]
         lar = [c for c in t.calls_in(sp) if any(k.name == "LogActionResult" for k in t.resolve_call(c, sp).ctor)]
         ok_lar = len(lar) == 1 and len(lar[0].args) >= 2 and norm(lar[0].args[1]) == ln and \
-            isinstance(p.parent_of(lar[0]), ast.Call) and norm(p.parent_of(lar[0]).func).endswith("attach_result")
+            isinstance(p.parent_of(lar[0]), ast.Call) and is_attach_call(ctx, p.parent_of(lar[0]), sp)
         for what, okx in (("snapshot.log_msg = rendered message", len(setlog) == 1), ("one watch result per field added to the snapshot", len(addw) == 1),
                           ("field variables merged into the snapshot", len(mrg) == 1), ("LogActionResult attached with the same message", ok_lar)):
             if okx:
@@ -315,7 +315,7 @@ def run(ctx: Ctx, tier: str) -> Result:
     # ---------------- ONCE
     lp = p.func(LOGM + ".LogActionContext._process_action")
     lar = [c for c in t.calls_in(lp) if any(k.name == "LogActionResult" for k in t.resolve_call(c, lp).ctor)]
-    att = [c for c in t.calls_in(lp) if isinstance(c.func, ast.Attribute) and c.func.attr == "attach_result"]
+    att = [c for c in t.calls_in(lp) if is_attach_call(ctx, c, lp)]
     if len(lar) == 1 and len(att) == 1 and not paths.conditions(p, att[0], lp) and not paths.enclosing_loops(p, att[0], lp) \
             and any(n is lar[0] for n in ast.walk(att[0])):
         res.ok("C16.ONCE", {"log action attaches exactly one result": lp.loc(att[0])})
